@@ -230,3 +230,70 @@ SPECS.append({
  "manifest": {"text": "Bounded model checking of histories through the real caching layer against the real uncached engine as oracle at every step.",
               "note": "Trusted: executor, z3, injective key rendering (stub for json.Marshal), native sha256. Bounds: <=4 steps, small query / option sets."},
 })
+
+SPECS.append({
+ "property_id": "C11", "level": "other",
+ "explanation": "Sufficient condition checked on every symbolic path of every public method of the shared objects; no goroutine is run and no interleaving is enumerated. (1) Lock discipline: the executor tracks which mutex is held in which mode; every store to a cell (field, slice element, list element, map content) of LRUCache / Histogram / Collector needs the object's mutex in write mode, every load needs it in either mode unless no path of the harness stores to that field (cross-path obligation); every path releases what it took. (2) Read-only search: after the indexes are built, SearchUniversal / GetSuggestions with symbolic query and options perform no store and no map update on anything reachable from the database or from the module's package-level variables; the cached / monitored search only changes lock-guarded or atomically updated state. (3) Counter and Gauge values are touched only through sync/atomic. Race freedom follows by the lockset argument, linearizability of the LRU from 'every method is one write-mode critical section' with C12 as the sequential specification, 'answers as if alone' from (2) with C02.",
+ "assumptions": ["sync.Mutex / RWMutex and sync/atomic behave as documented (modelled as sequential state machines)", "SearchCache.enabled / Manager.enabled are plain fields written only by Enable, which is not among the concurrent operations of the property (not exercised)", "the lockset => race-freedom and mutual-exclusion => linearizability arguments are stated, not mechanised"],
+ "stubs": ["sync primitives (lock-state tracking)", "time.Now symbolic clock", "regexp stub"],
+ "outside_the_claim": ["actual schedules / the Go race detector (a different technique)", "the lazy index rebuild racing with a concurrent growth of Commands (the database is assumed loaded)"],
+ "trusted_base": TB + ["the lockset argument"],
+ "harnesses": [
+  H("C11", "internal/cache", "LRU", "both", ["called"], "capacity 2, 0-2 resident entries, each of the 9 public methods, symbolic key / ttl / clock", "lock discipline of the LRU", synctest=True, panic_freedom=True),
+  H("C11", "internal/cache", "SearchCache", "both", ["called"], "7 operations of the search cache", "lock discipline through the search cache", synctest=True, panic_freedom=True),
+  H("C11", "internal/metrics", "Histogram", "both", ["called"], "5 methods", "mutex-guarded histogram", panic_freedom=True),
+  H("C11", "internal/metrics", "Counter", "both", ["called"], "8 methods of Counter / Gauge", "atomic-only accounting", panic_freedom=True),
+  H("C11", "internal/metrics", "Collector", "both", ["called"], "get-or-create of 4 metric kinds, GetAllMetrics", "double-checked registry under the RWMutex", panic_freedom=True),
+  H("C11", DB, "ReadOnlySearch", "both", ["searched"], "7-command database, symbolic query word, limit 1..3, fuzzy / platform flags symbolic", "search writes nothing that existed before the call", panic_freedom=True),
+  H("C11", DB, "ReadOnlySearchNLP", "both", ["searched"], "same with UseNLP", "same", panic_freedom=True),
+  H("C11", DB, "CachedSearch", "both", ["searched"], "cached + monitored search / invalidate / sweep / stats", "only guarded or atomic state changes", panic_freedom=True, synctest=True),
+ ],
+ "manifest": {"text": "Path-sensitive lockset and write-set obligations decided by symbolic execution of every public method (a sufficient condition for the property, not a schedule exploration).",
+              "note": "Trusted: executor's lock model, z3, the lockset => race-freedom argument. No interleaving is enumerated.",
+              "technique": "symbolic execution of the real code (go/ssa + SMT path feasibility) with lock-state and write-set tracking; obligations per memory access"},
+})
+
+SPECS.append({
+ "property_id": "C18", "level": "model_checking",
+ "explanation": "Series identity under every iteration order of the tag map (executor forks all orders of maps up to 3 entries; tag keys and values symbolic); counter arithmetic with symbolic 64-bit addends; histogram count / exact sum / bucket accounting with symbolic IEEE observations and monotone percentiles for symbolic 0 <= p1 <= p2 <= 100; monitor totals over symbolic cache-hit / success flags.",
+ "assumptions": ["observations finite in [-1e9, 1e9]", "percentiles in [0,100]", "concurrency clauses are C11's obligations"],
+ "stubs": ["map-order forks", "sync / atomic sequential models", "fmt.Sprintf exact for concrete operands"],
+ "outside_the_claim": ["more than 3 tags", "more than 3 observations"],
+ "trusted_base": TB,
+ "harnesses": [
+  H("C18", "internal/metrics", "Identity1", "both", ["identity"], "1 symbolic tag", "same identity => same metric"),
+  H("C18", "internal/metrics", "Identity2", "both", ["identity"], "2 symbolic tags, every map order", "same"),
+  H("C18", "internal/metrics", "Identity3", "thorough", ["identity"], "3 symbolic tags, every map order", "same"),
+  H("C18", "internal/metrics", "Counter", "both", ["counted"], "0-4 Inc / Add(v), v any int64", "value equals the sum (wrap-around arithmetic)"),
+  H("C18", "internal/metrics", "Monitor", "both", ["monitored"], "0-2 searches, 0-2 database operations, flags symbolic", "totals equal events"),
+  H("C18", "internal/metrics", "Monitor3", "thorough", ["monitored"], "3 + 3 events", "same"),
+  H("C18", "internal/metrics", "MonitorSameIdentity", "both", ["monitored"], "same (operation, success) twice, every tag order", "one identity, one series"),
+  H("C18", "internal/metrics", "Histogram1", "thorough", ["observed"], "0-1 symbolic observation, default buckets, symbolic percentiles", "count / sum / buckets / monotone percentiles", timeout_ms=600000),
+  H("C18", "internal/metrics", "Histogram2B", "thorough", ["observed"], "1-2 observations, 3 symbolic ascending buckets", "same", timeout_ms=600000),
+ ],
+ "manifest": {"text": "Bounded symbolic model checking with the tag map's iteration order as explored nondeterminism and counter / histogram operands as solver variables.",
+              "note": "Trusted: executor, z3/cvc5, go/ssa. Bounds: <=3 tags, <=3 observations; histogram obligations are floating-point (cvc5) and run in the thorough tier."},
+})
+
+SPECS.append({
+ "property_id": "C19", "level": "model_checking",
+ "explanation": "Loaders: the file is a vector of symbolic bytes behind the engine's os.Open / bufio / encoding/binary execution; a load either fails or returns an index, never panics, and every allocation whose size is a function of file content is bounded by a constant plus the file length (obligation posed at every make with a symbolic size; counterexamples replayed natively under an address-space limit with a TotalAlloc oracle). Semantic stage: with no index, or an index that has no vector for the query, SearchUniversal is unchanged. Cosine: symmetric bit for bit (dimension 1-3, symbolic float32 components) and 0 for empty / zero / mismatched vectors.",
+ "assumptions": ["file length <= 12 bytes; the 16-bit word-length field is assumed <= 16 (the executor enumerates slice lengths)", "components finite in [-1e6, 1e6]", "Float64bits of a symbolic float is an uninterpreted function of the float term (sufficient for bit-identity of two computations)"],
+ "stubs": ["file-system model: os.Open / (*os.File).Read", "bufio and encoding/binary run from SSA"],
+ "outside_the_claim": ["|cosine| <= 1 and the stage's bounded-factor clause: floating-point division and square roots put these obligations beyond cvc5 / z3 within the time limits here (cosine range unknown after 60 s per query; the 1-ulp overshoot for d=2 reported in DESIGN.md was found by a 190 s cvc5 run during design). They are stated, not claimed.", "successful loads of real-size files (400-byte records)"],
+ "trusted_base": TB,
+ "harnesses": [
+  H("C19", "internal/embedding", "CosineSym1", "both", ["cosine"], "dimension 1", "symmetry"),
+  H("C19", "internal/embedding", "CosineSym2", "both", ["cosine"], "dimension 2", "symmetry"),
+  H("C19", "internal/embedding", "CosineSym3", "both", ["cosine"], "dimension 3", "symmetry"),
+  H("C19", "internal/embedding", "CosineShapes", "both", ["cosine"], "empty, mismatched, zero vectors", "zero cases"),
+  H("C19", "internal/embedding", "LoadWords4", "both", ["rejected"], "word-vector file of 0-4 symbolic bytes", "no panic, bounded allocation"),
+  H("C19", "internal/embedding", "LoadWords8", "both", ["rejected"], "5-8 symbolic bytes", "same"),
+  H("C19", "internal/embedding", "LoadCmds8", "both", ["rejected", "loaded"], "command-embedding file of 0-8 symbolic bytes", "same"),
+  H("C19", "internal/embedding", "LoadCmds12", "both", ["rejected"], "12 symbolic bytes", "same"),
+  H("C19", "internal/embedding", "LoadMissing", "both", ["rejected"], "missing files", "errors, not crashes"),
+  H("C19", DB, "Absent", "both", ["boosted"], "no index / index without vectors for the query; symbolic query", "feature strictly optional"),
+ ],
+ "manifest": {"text": "Bounded symbolic execution of the binary loaders over symbolic file bytes with an allocation-size obligation at every input-sized make; relational check that the semantic stage is inert without data; syntactic (hash-consed) bit-symmetry of cosine.",
+              "note": "Trusted: executor, z3/cvc5, file model. Partial claim: the cosine range and bounded-factor clauses are outside (FP div/sqrt beyond solver reach here)."},
+})
